@@ -923,6 +923,9 @@ func unop(fr *frame, instr *ssa.UnOp, x value) value {
 			return -x
 		}
 	case token.MUL:
+		if sp, ok := x.(symElemPtr); ok {
+			return sp.load()
+		}
 		p := x.(*value)
 		if p == nil {
 			fr.i.throwNilDeref()
